@@ -204,7 +204,7 @@ pub struct Unsup {
 
 pub fn run(ctx: &mut Ctx) {
     ctx.rule("agree: archives from the crate's writer (no encryption; incl. large_file, extra data, aligned) and contiguous archives from the independent builder with sizes in the local headers, read front-to-back from a non-seekable short-read stream with a per-entry consumption pattern from {0,1,k,all-1,all,half,random}; the sequence (name,size,method,timestamp,crc,content prefix) must equal the seekable reader's, then end-of-entries; the visitor must deliver visit_file per entry in order and then the central metadata once per entry in order. unsupported: an encrypted or data-descriptor entry at a generated position must yield an error, never data. Non-trivial = >=2 entries and at least one entry not fully consumed.");
-    let n = ctx.q(1500, 30000);
+    let n = ctx.q(8000, 100000);
     let maxc = ctx.q(40000, 400000);
     ctx.explore::<Case>(
         "agree",
@@ -235,7 +235,7 @@ pub fn run(ctx: &mut Ctx) {
             }
         },
     );
-    let n = ctx.q(800, 10000);
+    let n = ctx.q(3000, 30000);
     ctx.explore::<Unsup>(
         "unsupported",
         n,
